@@ -5,7 +5,7 @@ import ast
 
 import sympy as sp
 
-from ..astq import Inliner, U, kwarg, statements
+from ..astq import Canon, Inliner, U, kwarg, statements
 from ..cfg import CFG, header_walk
 from ..index import AnalysisError, walk_no_nested
 from ..normalform import NFUnsupported, Normalizer, equal
